@@ -25,13 +25,15 @@ func init() {
 				"reply, and that function accepts only replies whose ID, question count, question type and (case-insensitively) " +
 				"name equal the request's.",
 			NotCovered: "the up/down state machine over all fault sequences and the timing of the backoff (run-time quantities).",
-			Rules: map[string]string{"C17-RC": "class rules (error chains, shadowed results, character classes, crossed arguments, pool constructors, array pools, loop completeness, loop-carried buffers, replacing setters, complete clones, Grow arithmetic, pooled-buffer escape, sorted searches, fresh decode targets, per-iteration objects, whole-message copies, codec guards) over the packages this property rests on", "C17-R8": "every fmt.Errorf that reports an error value wraps it with %w (the fail-over decision classifies causes with errors.As)", "C17-R7": "upstream connection pool: Get hands out only connections that passed the idle-expiry test (expired ones are closed), Put queues or closes", "C17-R1": "ServeDNS fail-over table", "C17-R2": "who replaces the active set, under which lock and gate",
+			Rules: map[string]string{"C17-R9": "the fail-over decision classifies exchange errors with the same helper as the retry (net.Error or io.EOF)", "C17-RC": "class rules (error chains, shadowed results, character classes, crossed arguments, pool constructors, array pools, loop completeness, loop-carried buffers, replacing setters, complete clones, Grow arithmetic, pooled-buffer escape, sorted searches, fresh decode targets, per-iteration objects, whole-message copies, codec guards) over the packages this property rests on", "C17-R8": "every fmt.Errorf that reports an error value wraps it with %w (the fail-over decision classifies causes with errors.As)", "C17-R7": "upstream connection pool: Get hands out only connections that passed the idle-expiry test (expired ones are closed), Put queues or closes", "C17-R1": "ServeDNS fail-over table", "C17-R2": "who replaces the active set, under which lock and gate",
 				"C17-R3": "health probe state table", "C17-R5": "configuration wiring: main servers, fallback servers and health-check settings of the configuration reach the handler's fields of the same meaning",
 				"C17-R4": "reply validation tables"},
 		}})
 }
 
 func runC17(c *an.Ctx) {
+	c.Floor("C17-R9", 1)
+	c17ErrClassAgreement(c)
 	classSweep(c, "C17")
 	// ---- R8: errors keep their cause on the way to the fail-over decision (ServeDNS classifies them as network errors)
 	if n := sharedErrorChain(c, "C17-R8", errChainExceptions, ""); n < 20 {
@@ -75,6 +77,13 @@ func runC17(c *an.Ctx) {
 				}
 				return an.AV{Kind: an.KTuple, Tup: []an.AV{resp, an.Nil()}}, true
 			case strings.HasSuffix(name, "errors.As"):
+				return it.Feature("neterr"), true
+			case strings.HasSuffix(name, "forward.isExpectedConnErr"):
+				// F23: the fail-over decision uses the package's one definition of a connection failure
+				// (net.Error or io.EOF); "neterr" stands for that class.  A nil error is not one.
+				if len(args) == 1 && args[0].Kind == an.KNil {
+					return an.CBool(false), true
+				}
 				return it.Feature("neterr"), true
 			case name == "p0.rand.Intn", strings.HasSuffix(name, ".Intn"):
 				return an.CInt(1), true
@@ -1001,4 +1010,52 @@ func c17Pool(c *an.Ctx) {
 var errChainExceptions = map[string]string{
 	"debugsvc.runServer":     "the error is only used as a panic message at start-up; nothing classifies it",
 	"backendpb.fixGRPCError": "deliberately replaces the gRPC status error by context.DeadlineExceeded (wrapped) and keeps only the text of the original",
+}
+
+// c17ErrClassAgreement: package forward has one definition of "the connection
+// to the upstream failed" (isExpectedConnErr: a net.Error or io.EOF, the latter
+// being what a stream upstream that closes the connection produces).  The retry
+// on a fresh connection uses it; the decision to go to a fallback must use the
+// same class, otherwise an upstream that closes connections is retried but never
+// failed over.  Any other errors.As(err, *net.Error) in the package is a second,
+// narrower definition.
+func c17ErrClassAgreement(c *an.Ctx) {
+	uses := 0
+	for _, fn := range c.AllFns {
+		if fn.Blocks == nil || c.IsTestFile(fn.Pos()) || !strings.HasPrefix(an.FnKey(fn), "dnsserver/forward.") {
+			continue
+		}
+		k := an.FnKey(fn)
+		for _, call := range an.Calls(fn) {
+			n := an.CalleeName(call)
+			if strings.HasSuffix(n, "forward.isExpectedConnErr") {
+				uses++
+			}
+			if !(strings.HasSuffix(n, "errors.As") && len(call.Common().Args) == 2) || k == "dnsserver/forward.isExpectedConnErr" {
+				continue
+			}
+			target := call.Common().Args[1]
+			if mi, ok := target.(*ssa.MakeInterface); ok {
+				target = mi.X
+			}
+			pt, ok := target.Type().Underlying().(*types.Pointer)
+			if !ok || an.TypeName(pt.Elem()) != "net.Error" {
+				continue
+			}
+			c.Analysed(k)
+			c.Bad("C17-R9", k+" classifies connection failures like the retry does", call.Pos(),
+				"errors are classified with errors.As(err, *net.Error) directly instead of isExpectedConnErr: io.EOF from a stream upstream that closes the connection is retried but never failed over to a fallback")
+		}
+	}
+	fn := c.Fn("dnsserver/forward.(*Handler).ServeDNS")
+	viaHelper := false
+	if fn != nil {
+		for _, call := range an.Calls(fn) {
+			if strings.HasSuffix(an.CalleeName(call), "forward.isExpectedConnErr") {
+				viaHelper = true
+			}
+		}
+	}
+	c.Check(viaHelper && uses >= 2, "C17-R9", "dnsserver/forward.(*Handler).ServeDNS decides the fail-over with isExpectedConnErr", token.NoPos,
+		"the fail-over decision uses the package's one definition of a connection failure", "the fail-over decision does not use isExpectedConnErr")
 }
